@@ -5,7 +5,7 @@ from vlib import enc
 from checklib import Scenario
 
 RULE = ("two-layer trees under $ECONFTOOL_ROOT (configuration names with one and with several dots) (vendor /usr/etc, local /etc) and single absolute files x --delimiters / "
-        "--comment choices (one character and sets of two) x files using both comment characters, files with only group-less keys, only sections, both, empty sections, multi-line values, "
+        "--comment choices (one character and sets of two; --delimiters also with one to three of the escape sequences \\t \\f \\n \\r \\v in any order, a repeated one, an unknown one, and the word spaces) x files using both comment characters, files with only group-less keys, only sections, both, empty sections, multi-line values, "
         "malformed lines; the real econftool binary (ASan build of util/econftool.c + lib) is run for show, syntax and cat; "
         "stdout, the error line on stderr and the exit status are compared with the model of the tool, which is built on the "
         "model of the library's readers (so the tool is compared with what an application would get); distinct by scenario")
@@ -68,6 +68,9 @@ def check(tier, seed):
     for _ in range(n):
         name = rng.choice([b"foo", b"bar", b"app.service", b"a.b.c"]); sfx = rng.choice([b"conf", b"cfg"])
         dl = rng.choice([b"=", b"=", b":=", b" "]); cm = rng.choice([b"#", b";", b"#;", b";#", b"#"])
+        if rng.random() < 0.2:
+            # escape sequences as main() translates them (first occurrence of each, in the order t f n r v), the word "spaces"
+            dl = rng.choice([b"=\\t", b"=\\t\\f", b"=\\t\\v", b"=\\f\\t", b"\\t=\\v", b":\\v\\r\\t=", b"=\\t\\t", b"spaces", b"\\f:\\n", b"=\\x", b"=" + b"a" * 1100 + b"\\t"])
         cmds = []
         for li, d in enumerate([b"/usr/etc", b"/etc"]):
             cmds.append(trees.fsdir(d))
